@@ -231,13 +231,13 @@ def _rate_tol(c, rate):
     return 1e-9 * max(1.0, abs(rate)) + (1e-7 * (1.0 + float(r @ r)) if _jitter(c) else 0.0)
 
 
-def check_accepted(ctx, c, iface, real, target, res):
+def check_accepted(ctx, c, iface, real, target, res, draws):
     """The sampler accepted the posterior and stepped: compare with TLC's exact pair and with the real target."""
     key = _key(c)
     sig = "%s/%s/%s" % (iface, real, key)
     shape, rate = float(_fr(c["shape"])), float(_fr(c["rate"]))
     alpha = float(_fr(c["alpha"]))
-    draws = [float(v) for v in c["chain"]]
+    draws = [float(v) for v in draws]
     ok = True
     if len(res["gammas"]) < len(draws):
         ctx.mismatch("no_gamma_draw/" + sig, c, "a step of the conjugate sampler did not draw from numpy.random.gamma",
@@ -307,7 +307,7 @@ def replay_conj(ctx, c):
                 if res["stage"] is not None:
                     ctx.mismatch("rejects_supported/" + sig, c, "a documented conjugate pair is refused (%s): %s" % (res["stage"], res["error"]))
                     continue
-                check_accepted(ctx, c, iface, real, target, res)
+                check_accepted(ctx, c, iface, real, target, res, draws)
                 continue
             # expected: rejected
             if res["stage"] == "construct":
@@ -325,8 +325,15 @@ def replay_conj(ctx, c):
                     "%s/%s/%s occ=%d" % (c["fam"], c["attr"], c["dep"], c["occ"]))
                 continue
             # it produced draws: are they draws of the conditional?
+            if res["stage"] is None and c["unitexact"]:
+                # a row of conjugate form outside the documented table (e.g. prec = 2 d): the specification's unit-parameter
+                # update is the exact conditional, so accepting is harmless provided the Gamma drawn from is that one
+                check_accepted(ctx, c, iface, real, target, res, draws)
+                ctx.observations.setdefault("legacy_accepts_undocumented_but_exact_rows", []).append(
+                    "%s/%s/%s" % (c["fam"], c["attr"], c["dep"]))
+                continue
             exact = False
-            if res["gammas"] and not isinstance(target, type(None)):
+            if res["gammas"]:
                 try:
                     a_t, b_t, vals = target_coefficients(target)
                     a, r = res["gammas"][0][0], res["gammas"][0][1]
@@ -334,18 +341,10 @@ def replay_conj(ctx, c):
                                  and abs(r + b_t) < _rate_tol(c, r) + 1e-8 * max(1, abs(b_t)))
                 except Exception:
                     exact = False
-            if exact != bool(c["unitexact"]):
-                ctx.mismatch("unit_update_exactness/" + sig, c,
-                             "the specification and the real target disagree on whether the unit-parameter update is exact for this row",
-                             expected=c["unitexact"], observed=exact)
-                continue
             if exact:
-                if abs(res["gammas"][0][0] - float(_fr(c["shape"]))) > 1e-9 or \
-                        abs(res["gammas"][0][1] - float(_fr(c["rate"]))) > _rate_tol(c, float(_fr(c["rate"]))):
-                    ctx.mismatch("drawn_pair_exact_row/" + sig, c, "accepted conjugate-form row: drawn Gamma differs from the specification",
-                                 expected=(float(_fr(c["shape"])), float(_fr(c["rate"]))), observed=res["gammas"][0][:2])
-                ctx.observations.setdefault("legacy_accepts_undocumented_but_exact_rows", []).append(
-                    "%s/%s/%s" % (c["fam"], c["attr"], c["dep"]))
+                ctx.mismatch("unit_update_exactness/" + sig, c,
+                             "the specification says the conditional of this row is not the Gamma of the unit-parameter update, "
+                             "the real target says it is", expected=False, observed=True)
                 continue
             ctx.mismatch("legacy_unvalidated/%s/%s/attr=%s/dep=%s/occ=%d" % (real, c["fam"], c["attr"], c["dep"], c["occ"]), c,
                          "legacy cuqi.sampler.Conjugate accepts a posterior outside the conjugate structure and draws from a Gamma "
@@ -501,11 +500,13 @@ def _choose_variant(ctx, variants):
         P = np.asarray(cuqi.operator.PrecisionFiniteDifference(nn, bc_type=c["gbc"], order=c["gorder"]).get_matrix().todense(), dtype=float)
         sel = [v for v in variants if np.array_equal(np.array(v["P"], dtype=float), P)]
     else:
+        if all(v["nrows"] == 0 for v in variants):       # rows without structure (multivariate Gamma): variants coincide
+            return variants[:1]
         rows = cuqi.operator.FirstOrderFiniteDifference(nn, bc_type=c["gbc"]).get_matrix().shape[0]
-        sel = [v for v in variants if v["nrows"] == rows or v["nrows"] == 0]
+        sel = [v for v in variants if v["nrows"] == rows]
     if not sel:
         raise MachineryError("no wrap-multiplicity variant of the specification matches the real periodic operator (%s); see C20" % _key(c))
-    ctx.observations.setdefault("periodic_wrap_multiplicity", {})["pd=%d/n=%d/order=%d" % (c["pd"], n, c["gorder"])] = sel[0]["wm"]
+    ctx.observations.setdefault("periodic_wrap_multiplicity", {})["%s/pd=%d/n=%d/order=%d" % (c["fam"], c["pd"], n, c["gorder"])] = sel[0]["wm"]
     return sel
 
 
